@@ -3,6 +3,7 @@ package main
 // C11 (renderings), C16 (streams), C15 (locks and races).
 
 import (
+	"unicode/utf8"
 	"bytes"
 	"encoding/hex"
 	"errors"
@@ -552,6 +553,18 @@ func specialStreams(c *specialCtx) {
 			c.violation("stream-no-stop", fmt.Sprintf("read script %v: the loop did not stop", sizes), payload)
 			return
 		}
+		// known finding: a stream that ends inside a multi-byte character — its last bytes are never interpreted
+		for k := len(expected) - 1; k >= 0 && k >= len(expected)-3; k-- {
+			if expected[k] >= 0xc0 {
+				if !utf8.FullRune(expected[k:]) && vt.Buffered() > 0 {
+					c.violation("eof-inside-character", fmt.Sprintf("read script %v: the stream ends inside a character; %d byte(s) stay unread for ever", sizes, vt.Buffered()), payload)
+				}
+				break
+			}
+			if expected[k] < 0x80 {
+				break
+			}
+		}
 		// everything delivered before the stop was interpreted (an incomplete final sequence or character aside)
 		io1, _ := im.observe(false)
 		mo, _ := d.cmdBlock("eof")
@@ -855,6 +868,20 @@ func (s *selfStoppingTee) Write(p []byte) (int, error) {
 // lockScenario is one concurrent scenario; it exits non-zero with a message on a protocol
 // violation. Races are reported by the race runtime, deadlocks by the parent's timeout.
 func lockScenario(seed int64) int {
+	// 0. several terminals are created and start their read loops at the same time (package-level
+	// state such as the debug output must be initialised safely); the race detector judges
+	{
+		var wg0 sync.WaitGroup
+		for k := 0; k < 3; k++ {
+			wg0.Add(1)
+			go func() {
+				defer wg0.Done()
+				tm := te.NewWithMode(&te.EmptyFrontend{}, te.NewNoPTYBackend(bytes.NewReader([]byte("ab\x1b[2;3r\x05cd\r\n")), io.Discard), te.TextReadModeRune)
+				tm.WithLock(func() { _ = tm.Line(0) })
+			}()
+		}
+		wg0.Wait()
+	}
 	r := newPrng(uint64(seed))
 	pr, pw := io.Pipe()
 	be := &pipeBackend{r: pr}
